@@ -132,7 +132,7 @@ def __i{name}__(self, other):
         elif ndim == 1:
             self._i{name}_array(other)
         elif ndim == 2:
-            for i in other: self._i{name}_array(other)
+            raise ValueError('shape mismatch between arrays')
         else:
             raise ValueError('shape mismatch between arrays')
     return self
